@@ -416,6 +416,12 @@ func c01History(r *Run, h int, ts TxnSchema, nT int, plans []monPlan, txns []Txn
 			txn, w = txns[ti], who[ti]
 		} else {
 			txn = genTxn(r.Rng, ts, sh, 1+r.Rng.Intn(4))
+			if r.Rng.Intn(3) == 0 {
+				// a row touched twice in one transaction (the notification carries the merged difference)
+				if t2, ok := genDoubleMutateTxn(r.Rng, ts, sh); ok {
+					txn = t2
+				}
+			}
 			clampWaits(&txn)
 			if len(clients) > 0 && r.Rng.Intn(3) == 0 {
 				ids := []int{}
